@@ -45,7 +45,7 @@ theorem mainP_syntaxOnly (env : PEnv) (orc : EvalOracles) (ok : Bool) (conf : Li
 
 /-- A call of a dry run: not mutating, and a `fork` only if the configuration has a `command` condition (`hc`):
 conditions are evaluated under `-d` as they are otherwise, actions are not executed. -/
-def Quiet (hc : Bool) (c : Call) : Prop := c.mutating = false ∧ (c = .fork → hc = true)
+def Quiet (hc : Bool) (c : Call) : Prop := c.mutating = false ∧ (c.isFork = true → hc = true)
 
 theorem quiet_evalP (hc : Bool) (env : Env) (e : Expr) (m : Msg) (fl : MFlags)
     (h : hasCommand e = true → hc = true) : Calls (Quiet hc) (evalP env e m fl) := by
@@ -157,7 +157,7 @@ theorem mainP_badconf (env : PEnv) (orc : EvalOracles) (conf : List ConfBlock) (
   exact ⟨_, rfl, rfl⟩
 
 theorem quiet_callsOf {α} (hc : Bool) (plan : Plan) (p : Prog α) (w : World) (h : Calls (Quiet hc) p) :
-    ∀ c ∈ callsOf' plan p w, c.mutating = false ∧ (c = .fork → hc = true) := by
+    ∀ c ∈ callsOf' plan p w, c.mutating = false ∧ (c.isFork = true → hc = true) := by
   obtain ⟨L, hL, hQ⟩ := h.trace plan w 0
   unfold callsOf'
   simp only [runPlan_eq, hL, List.drop_left]
